@@ -29,14 +29,15 @@ SPEC = dict(
              dist_keys=_DIST, nontrivial=_nontrivial, timeout=1500),
         # Sway stream: `const X: T = __op(A, B)` through the real compiler (const_eval.rs), value read back by
         # running the script; ~50 ms per case
-        dict(bin="sv_c06", area="c06", label="sway", n_quick=1500, n_thorough=12000, corpus="corpus/c06.txt",
+        dict(bin="sv_c06", area="c06", label="sway", n_quick=3000, n_thorough=12000, corpus="corpus/c06.txt",
              args=["--sway"], dist_keys=_DIST, nontrivial=_nontrivial, timeout=1500),
     ],
     rule="every operator (add sub mul div mod and or xor lsh rsh not eq lt gt) x every width (u8 u16 u32 u64 u256 "
          "b256, bool for eq) with boundary-biased operands: 0, 1, 2, max, max-1, 2^k, 2^k+-1, max/2, payloads beyond a "
          "narrow declared width, operand pairs straddling the overflow / underflow / equality boundary "
-         "(a+b = 2^w+-1, a*b around 2^w, b = a+-1, divisor 0), shift amounts 0, 1, w-1, w, w+1, 63..65, 255..257, "
-         "2^32-1, 2^32, 2^40, 2^63, 2^64-1. Each case = one real const-folding run (or one real compilation of a "
+         "(a+b = 2^w+-1, a*b around 2^w, b = a+-1, divisor 0), shift amounts (same family in both streams, every width incl. u256/b256) 0, 1, "
+         "w-1, w, w+1, 63..65, 255..257, 2^31, 2^32-1, 2^32, 2^32+k (k<64), 2^33..2^63 (+k), 2^40, 2^63, 2^64-1; "
+         "corpus/c06.txt starts with the systematic block shift op x width x those amounts x a in {1,5,max}. Each case = one real const-folding run (or one real compilation of a "
          "const declaration) + one real FuelVM execution; non-trivial = the compiler produced a value, or the VM "
          "did not; distinct by (stream, op, type, operands)",
     trusted_base=[
